@@ -32,7 +32,7 @@ fn mk_event(kind: &str, f: &[&str]) -> RdpEvent {
     match kind {
         "P" => RdpEvent::Pointer(PointerEvent {
             x: f[0].parse().unwrap(), y: f[1].parse().unwrap(),
-            button: PointerButton::try_from(f[2].parse::<u8>().unwrap()).unwrap_or(PointerButton::None),
+            button: match f[2].parse::<u8>().unwrap() { 1 => PointerButton::Left, 2 => PointerButton::Right, 3 => PointerButton::Middle, _ => PointerButton::None },
             down: f[3] == "1" }),
         "K" => RdpEvent::Key(KeyboardEvent { code: f[0].parse().unwrap(), down: f[1] == "1" }),
         _ => RdpEvent::Bitmap(BitmapEvent { dest_left: 0, dest_top: 0, dest_right: 0, dest_bottom: 0, width: 0, height: 0, bpp: 0, is_compress: false, data: vec![] }),
